@@ -104,6 +104,8 @@ func c19Phase(op string) string {
 		return "init"
 	case "exec", "fieldlist":
 		return "exec"
+	case "fetchmore", "readmore":
+		return "stream"
 	case "commit", "rollback":
 		return "end"
 	}
@@ -223,8 +225,8 @@ func c19Shrink(tr *txTrace, v c19Viol) (*txTrace, c19Viol) {
 	return cur, curV
 }
 
-var c19Alpha = []string{"begin", "start", "commit", "rollback", "ac0", "ac1", "sp", "rbsp", "relsp", "rs0", "rs1", "rs2", "ws0", "ws1", "ws2", "fs1", "ru", "wu", "fu", "rg", "wg", "ping", "fl"}
-var c19Core = []string{"begin", "ac0", "commit", "rollback", "ac1", "sp", "rbsp", "ws0", "ws1", "ws2", "ru", "ping", "fl"}
+var c19Alpha = []string{"begin", "start", "commit", "rollback", "ac0", "ac1", "sp", "rbsp", "relsp", "rs0", "rs1", "rs2", "ws0", "ws1", "ws2", "fs1", "ru", "wu", "fu", "rg", "wg", "ping", "fl", "sr", "sm"}
+var c19Core = []string{"begin", "ac0", "commit", "rollback", "ac1", "sp", "rbsp", "ws0", "ws1", "ws2", "ru", "ping", "fl", "sr"}
 
 // c19Exhaustive enumerates every sequence over c19Core up to length n.
 func c19Exhaustive(n int, modes []string, ends []string) []*txCase {
@@ -265,6 +267,9 @@ func c19Curated() []*txCase {
 		{"begin", "ws2", "ping", "disc"},
 		{"ac0", "ru", "disc"},
 		{"begin", "ws0", "ws1", "quit"},
+		{"sr", "sm", "begin", "sm", "ws1", "sr", "commit", "quit"},
+		{"ac0", "sr", "ws1", "sm", "ac1", "sr", "quit"},
+		{"ws1", "sm", "disc"},
 	}
 	var out []*txCase
 	for _, m := range []string{"p", "k"} {
@@ -359,7 +364,7 @@ func c19Scenarios() []*txCase {
 }
 
 func TestVerif_C19(t *testing.T) {
-	rec := kit.Start("C19", "fault_enumeration", "command sequences (exhaustive over a 13-command core alphabet up to a length bound + seeded random ones over 24 commands, users rw/rw-split/read-only, keep-session on/off, ending in COM_QUIT or an abrupt disconnect) x EVERY backend call of the fault-free run x {error, connection closed, statement blocked past max_sql_execute_time}; a faulted run is non-trivial when the addressed call was reached, keyed by (mode, fault kind, call kind, class of the faulted command, role, connections held, in transaction)")
+	rec := kit.Start("C19", "fault_enumeration", "command sequences (exhaustive over a 14-command core alphabet up to a length bound + seeded random ones over 25 commands incl. streamed (chunked / multi-result) answers, users rw/rw-split/read-only, keep-session on/off, ending in COM_QUIT or an abrupt disconnect) x EVERY backend call of the fault-free run x {error, connection closed, statement blocked past max_sql_execute_time}; a faulted run is non-trivial when the addressed call was reached, keyed by (mode, fault kind, call kind, class of the faulted command, role, connections held, in transaction)")
 	defer rec.Finish(t)
 	rec.Assume("fake pools (rig R2) stand in for connectionPoolImpl: a Recycle of a connection that is not checked out is counted as a second return even though the fake tolerates it")
 	rec.Assume("the real pool's Put resets transaction state (ResetConnection), so 'no backend transaction left open' reduces to 'no connection left checked out'")
